@@ -18,6 +18,7 @@
  * cfg: drain (0 passive wait for all callbacks, 1 rcu_barrier x2), membarrier, cpu<i>
  */
 #define _GNU_SOURCE
+#include <limits.h>
 #include <pthread.h>
 #include <stdio.h>
 #include <stdlib.h>
@@ -34,7 +35,7 @@
 
 enum { EV_SEC_BEGIN = 1, EV_SEC_END, EV_CALL_ENT, EV_CALL_RET, EV_CB_RUN, EV_CB_DONE, EV_BAR_ENT, EV_BAR_RET, EV_POLL_START, EV_POLL_TRUE };
 enum { CF_CB_WAITED = 0, CF_HELPER_ASLEEP_AT_ENQ = 1, CF_HELPER_FREED_WITH_CBS = 2, CF_BARRIER_PENDING = 3, CF_POLL_WHILE_ACTIVE = 4,
-       CF_CHAIN = 5, CF_PERCPU = 6, CF_PERTHREAD = 7, CF_BARRIER_MULTI = 8, CF_PASSIVE_DRAIN = 9, CF_BARRIER_CONCURRENT = 10 };
+       CF_CHAIN = 5, CF_PERCPU = 6, CF_PERTHREAD = 7, CF_BARRIER_MULTI = 8, CF_PASSIVE_DRAIN = 9, CF_BARRIER_CONCURRENT = 10, CF_POLL_WRAP = 11 };
 
 struct obj { struct rcu_head head, head2; int id, chain; unsigned long val, chk; };
 
@@ -326,12 +327,19 @@ static NS void final_oracles(void)
 	}
 }
 
+extern void F(start_poll_synchronize_rcu_verif_set_gp_id)(unsigned long id);
 static int tids[16];
 static void scenario(void)
 {
 	int np = ds_prog_threads();
 	FL_SET_MEMBARRIER((int)ds_cfg("membarrier", 1));
 	for (int k = 0; k < MAXK; k++) OBJ[k] = new_obj(0);
+	/* polling counter fast-forwarded (URCU_VERIF hook) to just below the unsigned or the signed wrap: a history with that many earlier polled grace periods */
+	long pk = ds_cfg("pollbase", 0), po = ds_cfg("polloff", 0);
+	if (pk) {
+		ds_flag(CF_POLL_WRAP);
+		F(start_poll_synchronize_rcu_verif_set_gp_id)(pk == 1 ? -1UL - (unsigned long)po : pk == 2 ? (unsigned long)LONG_MAX - (unsigned long)po : (unsigned long)po << 40);
+	}
 	for (int t = 1; t < np; t++) tids[t] = ds_spawn(thread_main, (void *)(long)t);
 	run_program(0, 0);
 	for (int t = 1; t < np; t++) ds_join(tids[t]);
